@@ -214,3 +214,132 @@ func VH_c08_max_length() {
 		vReach("accepted")
 	}
 }
+
+// C08 (OPEN sent): the OPEN the speaker builds reflects its configuration - AS_TRANS in the 2-octet
+// field exactly for a 4-octet local AS with the real AS in the capability, the configured hold
+// time, one multiprotocol capability per configured family, ADD-PATH tuples per the configured
+// modes, graceful-restart tuples for the families it is enabled for - and it survives its own
+// serialisation and parsing.
+func VH_c08_open_sent() {
+	fams := []bgp.Family{bgp.RF_IPv4_UC, bgp.RF_IPv6_UC}
+	g := &oc.Global{}
+	g.Config.RouterId = vAddr4(1, 1, 1, 1)
+	localAS := vU32("local_as")
+	vAssume(localAS != 0)
+	var cf []bgp.Family
+	var on [2]bool
+	for i, f := range fams {
+		on[i] = c08bool("family_configured", 2, true)
+		if on[i] {
+			cf = append(cf, f)
+		}
+	}
+	vAssume(on[0] || on[1])
+	c := vNeighbor(2, 65001, localAS, cf)
+	hold := uint16(90)
+	if vParam("aspect")&1 != 0 {
+		hold = vU16("hold")
+	}
+	c.Timers.Config.HoldTime = float64(hold)
+	var recv, send, gr [2]bool
+	k := 0
+	c.GracefulRestart.Config.Enabled = c08bool("graceful_restart", 2, true)
+	c.GracefulRestart.Config.RestartTime = vU16("restart_time") & 0xfff
+	for i := range fams {
+		if !on[i] {
+			continue
+		}
+		recv[i], send[i], gr[i] = c08bool("addpath_receive", 2, false), c08bool("addpath_send", 2, true), c08bool("family_graceful_restart", 2, true)
+		c.AfiSafis[k].AddPaths.State.Receive = recv[i]
+		if send[i] {
+			c.AfiSafis[k].AddPaths.State.SendMax = 1 + vU8("send_max")&7
+		}
+		c.AfiSafis[k].MpGracefulRestart.Config.Enabled = gr[i]
+		k++
+	}
+	m := buildopen(g, c)
+	o := m.Body.(*bgp.BGPOpen)
+	if localAS > 65535 {
+		vAssert(o.MyAS == bgp.AS_TRANS, "a 4-octet local AS is not announced as AS_TRANS in the 2-octet field")
+	} else {
+		vAssert(uint32(o.MyAS) == localAS, "the 2-octet AS field does not carry the local AS")
+	}
+	vAssert(o.HoldTime == hold && o.ID == g.Config.RouterId && o.Version == 4, "the OPEN does not carry the configured hold time / router id / version 4")
+	var mp [2]int
+	var apMode [2]bgp.BGPAddPathMode
+	var grSeen [2]int
+	four, ext, grCap := 0, 0, 0
+	for _, p := range o.OptParams {
+		pc, ok := p.(*bgp.OptionParameterCapability)
+		if !ok {
+			continue
+		}
+		for _, cp := range pc.Capability {
+			switch x := cp.(type) {
+			case *bgp.CapMultiProtocol:
+				for i, f := range fams {
+					if x.CapValue == f {
+						mp[i]++
+					}
+				}
+			case *bgp.CapFourOctetASNumber:
+				four++
+				vAssert(x.CapValue == localAS, "the 4-octet AS capability does not carry the local AS")
+			case *bgp.CapExtendedMessage:
+				ext++
+			case *bgp.CapAddPath:
+				for _, t := range x.Tuples {
+					for i, f := range fams {
+						if t.Family == f {
+							apMode[i] |= t.Mode
+						}
+					}
+				}
+			case *bgp.CapGracefulRestart:
+				grCap++
+				vAssert(x.Time == c.GracefulRestart.Config.RestartTime, "the graceful-restart capability does not carry the configured restart time")
+				for _, t := range x.Tuples {
+					for i, f := range fams {
+						if bgp.NewFamily(t.AFI, t.SAFI) == f {
+							grSeen[i]++
+						}
+					}
+				}
+			}
+		}
+	}
+	vAssert(four == 1 && ext == 1, "the OPEN does not announce the 4-octet AS and Extended Message capabilities exactly once")
+	vAssert((grCap == 1) == c.GracefulRestart.Config.Enabled && grCap <= 1, "the graceful-restart capability is not sent exactly when graceful restart is configured")
+	for i := range fams {
+		want := 0
+		if on[i] {
+			want = 1
+		}
+		vAssert(mp[i] == want, "multiprotocol capabilities do not match the configured families")
+		var wm bgp.BGPAddPathMode
+		if recv[i] {
+			wm |= bgp.BGP_ADD_PATH_RECEIVE
+		}
+		if send[i] {
+			wm |= bgp.BGP_ADD_PATH_SEND
+		}
+		vAssert(apMode[i] == wm, "ADD-PATH tuples do not match the configured modes")
+		wantGR := 0
+		if on[i] && gr[i] && c.GracefulRestart.Config.Enabled {
+			wantGR = 1
+		}
+		vAssert(grSeen[i] == wantGR, "graceful-restart tuples do not match the families it is enabled for")
+	}
+	// the peer parses what we send
+	b, err := m.Serialize()
+	vAssert(err == nil && len(b) <= 4096, "the OPEN cannot be serialised within 4096 octets")
+	if err == nil {
+		back, perr := bgp.ParseBGPMessage(b)
+		vAssert(perr == nil && back != nil, "the OPEN sent is rejected by the parser")
+		if perr == nil && back != nil {
+			bo := back.Body.(*bgp.BGPOpen)
+			vAssert(bo.MyAS == o.MyAS && bo.HoldTime == o.HoldTime && getASN(bo) == localAS, "the parsed OPEN differs from the one built")
+		}
+	}
+	vReach("end")
+}
